@@ -269,7 +269,9 @@ extern "C" int harness_main()
 	s.run();
 	if (late_reader && connected == 0 && accepted == 0) { read_more(r); s.run(); }
 	// a held-back segment is released at quiescence (reordering, not loss), then the run continues
+#if !REUSE
 	for (int i = 0; i < DROPS + 1 && drp && drp->flush(); ++i) s.run();
+#endif
 
 	vp_assert((connected == 0) & (accepted == 0), 21);
 	// what was delivered is a prefix of what was reported written
@@ -295,7 +297,7 @@ extern "C" int harness_main()
 	vp_assert(w.sock->m_outgoing_packets.empty(), 33);
 	if (st.closed_by_writer) vp_assert(st.eof_seen, 34);
 #else
-	if (lossless && r.limit < 0)
+	if (lossless && r.limit < 0 && !REUSE)
 	{
 		// without loss everything arrives (sanity / vacuity guard for the safety assertions)
 		vp_assert(st.received == st.written, 25);
@@ -327,6 +329,8 @@ extern "C" int harness_main()
 		vp_assert(st2.eof_seen, 42);
 		vp_reach(4);
 	}
+	// a segment of the first connection that the hop still holds is released only now: it must vanish
+	for (int i = 0; i < DROPS + 1 && drp && drp->flush(); ++i) s.run();
 #endif
 	// tear down: the reader first (so that it does not observe the teardown of the writer as an end-of-file)
 	r.stop = true;
